@@ -242,11 +242,16 @@ struct BtEvent
   int flush_level{10};
 };
 
+// logger patterns outside C16: loggers whose options compare equal share one PatternFormatter inside the backend, loggers
+// with different patterns must not
+char const* const kLoggerPatterns[3] = {"%(message)", "%(logger)|%(message)", "%(log_level_short_code) %(thread_id) %(message)"};
+
 struct LoggerInfo
 {
   std::string name;
   SLogger* ptr{nullptr};
   std::vector<int> sinks;
+  int pat{0};               // index into kLoggerPatterns
   int level{4};             // current logger level (C16)
   bool valid{true};         // removal not requested
   bool removed{false};      // removal completed (observed)
